@@ -393,15 +393,78 @@ theorem storeIn_spec {hb : H} {u : Nat} {tr0 : List Eff} {s : S} (T : Trk hb u t
     (by simp only [alloc_next]; omega) (by simp only [alloc_next]; omega) (by decide)
   exact ⟨⟨T2, by simp⟩, hle, by simp⟩
 
-theorem ensureOut_spec {hb : H} {u : Nat} {tr0 : List Eff} {s : S} (T : Trk hb u tr0 s) (hu : u < hb.next) (p1 : Nat) :
-    Step hb u tr0 s (ensureOut s u p1).1 ∧
-      (hb.next ≤ (ensureOut s u p1).2 ∨ Owned hb u (ensureOut s u p1).2) ∧
-      (ensureOut s u p1).2 < (ensureOut s u p1).1.h.next := by
+/-! ### a re-used out-profile: the `else:` branch of `init_solve` (form `Reuse.handOver`) -/
+
+theorem delOutdated_spec {hb : H} {u : Nat} {tr0 : List Eff} (roots : List Nat) (handed : List (Nat × Nat)) {o : Nat}
+    (ht : hb.next ≤ o ∨ Owned hb u o) :
+    ∀ (fs : List (Nat × Nat)) (s : S), Trk hb u tr0 s → o < s.h.next →
+      Step hb u tr0 s (delOutdated roots handed o fs s) ∧ (delOutdated roots handed o fs s).h.next = s.h.next := by
+  intro fs
+  induction fs with
+  | nil => intro s T _; exact ⟨Step.refl T, rfl⟩
+  | cons e r ih =>
+    intro s T ho
+    simp only [delOutdated]
+    split
+    · obtain ⟨st, hn⟩ := ih (s.del o e.1) (T.del ht ho) (by simpa using ho)
+      refine ⟨⟨st.trk, ?_⟩, by rw [hn]; rfl⟩
+      have := st.mono; simpa using this
+    · exact ih s T ho
+
+theorem handOver_spec {hb : H} {u : Nat} {tr0 : List Eff} (roots : List Nat) (handed : List (Nat × Nat)) {o : Nat}
+    (ht : hb.next ≤ o ∨ Owned hb u o) :
+    ∀ (l : List (Nat × Nat)) (s : S), Trk hb u tr0 s → o < s.h.next →
+      (∀ e ∈ l, isOwn e.1 = false ∧ (handed.lookup e.1).getD e.2 < s.h.next) →
+      Step hb u tr0 s (handOver roots handed o l s) ∧ (handOver roots handed o l s).h.next = s.h.next := by
+  intro l
+  induction l with
+  | nil => intro s T _ _; exact ⟨Step.refl T, rfl⟩
+  | cons e r ih =>
+    intro s T ho hl
+    simp only [handOver]
+    have hr : ∀ x ∈ r, isOwn x.1 = false ∧ (handed.lookup x.1).getD x.2 < s.h.next :=
+      fun x hx => hl x (List.mem_cons_of_mem _ hx)
+    split
+    · exact ih s T ho hr
+    · obtain ⟨hf, hv⟩ := hl e List.mem_cons_self
+      obtain ⟨st, hn⟩ := ih (s.write o e.1 ((handed.lookup e.1).getD e.2)) (T.writePlain ht ho hv hf)
+        (by simpa using ho) (by simpa using hr)
+      refine ⟨⟨st.trk, ?_⟩, by rw [hn]; rfl⟩
+      have := st.mono; simpa using this
+
+theorem reuseOut_spec {hb : H} {u : Nat} {tr0 : List Eff} {s : S} (T : Trk hb u tr0 s) (tag : Nat) {o : Nat}
+    (ht : hb.next ≤ o ∨ Owned hb u o) (ho : o < s.h.next) (p1 : Nat) :
+    Step hb u tr0 s (reuseOut tag s o p1) ∧ (reuseOut tag s o p1).h.next = s.h.next := by
+  unfold reuseOut
+  simp only
+  obtain ⟨a, ha⟩ := delOutdated_spec (outRoots tag) (pubFields s.h p1) ht (s.h.obj o).fields s T ho
+  obtain ⟨b, hb'⟩ := handOver_spec (outRoots tag) (pubFields s.h p1) ht (pubFields s.h p1) _ a.trk (by rw [ha]; exact ho) (by
+    intro e he
+    have hm : e ∈ (s.h.obj p1).fields ∧ isPublic e.1 = true := by
+      simpa [pubFields, List.mem_filter] using he
+    refine ⟨isOwn_of_public hm.2, ?_⟩
+    rw [ha]
+    cases hl : (pubFields s.h p1).lookup e.1 with
+    | none => exact T.wf.closed p1 e.2 (mem_ptrs.2 (Or.inl ⟨e.1, hm.1⟩))
+    | some v => exact T.wf.closed p1 v (mem_ptrs.2 (Or.inl ⟨e.1, (pubFields_lookup hl).1⟩)))
+  exact ⟨Step.trans a b, by rw [hb', ha]⟩
+
+theorem ensureOut_spec {hb : H} {u : Nat} {tr0 : List Eff} {s : S} (rf : Reuse) (tag : Nat) (T : Trk hb u tr0 s)
+    (hu : u < hb.next) (p1 : Nat) :
+    Step hb u tr0 s (ensureOut rf tag s u p1).1 ∧
+      (hb.next ≤ (ensureOut rf tag s u p1).2 ∨ Owned hb u (ensureOut rf tag s u p1).2) ∧
+      (ensureOut rf tag s u p1).2 < (ensureOut rf tag s u p1).1.h.next := by
   have hle := T.next_le
   unfold ensureOut
   split
   · rename_i o ho
-    exact ⟨Step.refl T, T.ownTarget hu (by decide) ho, T.wf.getF_lt ho⟩
+    have hot := T.ownTarget hu (by decide) ho
+    have hol := T.wf.getF_lt ho
+    cases rf with
+    | keep => exact ⟨Step.refl T, hot, hol⟩
+    | handOver =>
+      obtain ⟨st, hn⟩ := reuseOut_spec T tag hot hol p1
+      exact ⟨st, hot, by simp only; rw [hn]; exact hol⟩
   · simp only [alloc_id]
     have T1 := T.allocCopy .outProfile (some u) p1 (by intro t h; simp only [Option.some.injEq] at h; omega)
     have T2 := T1.write (o := u) (f := fOUT) (v := s.h.next) (Or.inr (Owned.self u))
@@ -443,22 +506,163 @@ theorem passInit_spec {hb : H} {u : Nat} {tr0 : List Eff} {s : S} (T : Trk hb u 
   · exact T.allocWrite .value [7] ht ho (by decide)
   · exact Step.refl T
 
-theorem initSolve_spec {hb : H} {u : Nat} {tr0 : List Eff} (wb : Wf hb) (hu : u < hb.next) {f : Rec} (hf : RecSpec f)
-    {s : S} {p : Nat} (T : Trk hb u tr0 s) (hp : p < s.h.next) :
-    Step hb u tr0 s (initSolve f s u p).1 ∧
-      (hb.next ≤ (initSolve f s u p).2.1 ∧ (initSolve f s u p).2.1 < (initSolve f s u p).1.h.next) ∧
-      ((hb.next ≤ (initSolve f s u p).2.2 ∨ Owned hb u (initSolve f s u p).2.2) ∧
-        (initSolve f s u p).2.2 < (initSolve f s u p).1.h.next) := by
+theorem initSolve_spec {hb : H} {u : Nat} {tr0 : List Eff} (wb : Wf hb) (hu : u < hb.next) (rf : Reuse) {f : Rec}
+    (hf : RecSpec f) {s : S} {p : Nat} (T : Trk hb u tr0 s) (hp : p < s.h.next) :
+    Step hb u tr0 s (initSolve rf f s u p).1 ∧
+      (hb.next ≤ (initSolve rf f s u p).2.1 ∧ (initSolve rf f s u p).2.1 < (initSolve rf f s u p).1.h.next) ∧
+      ((hb.next ≤ (initSolve rf f s u p).2.2 ∨ Owned hb u (initSolve rf f s u p).2.2) ∧
+        (initSolve rf f s u p).2.2 < (initSolve rf f s u p).1.h.next) := by
   have hul : u < s.h.next := Nat.lt_of_lt_of_le hu T.next_le
   obtain ⟨a, _⟩ := preProcess_spec wb hf T hul hp
   obtain ⟨b, hi1, hi2⟩ := storeIn_spec a.trk hu (preProcess f s u p).2
-  obtain ⟨c, ho1, ho2⟩ := ensureOut_spec b.trk hu (preProcess f s u p).2
+  obtain ⟨c, ho1, ho2⟩ := ensureOut_spec rf (s.h.obj u).tag b.trk hu (preProcess f s u p).2
   have d := ensureDisks_spec c.trk hu (s.h.obj u)
   have e := passInit_spec d.trk (s.h.obj u) ho1 (Nat.lt_of_lt_of_le ho2 d.mono)
   have hde := Nat.le_trans d.mono e.mono
   refine ⟨Step.trans a (Step.trans b (Step.trans c (Step.trans d e))), ⟨hi1, ?_⟩, ho1, ?_⟩
   · exact Nat.lt_of_lt_of_le hi2 (Nat.le_trans c.mono hde)
   · exact Nat.lt_of_lt_of_le ho2 hde
+
+/-! ### what the `else:` branch establishes: the re-used out-profile answers for every public name that is not a root
+hook exactly like the CURRENT incoming profile -/
+
+theorem lookup_isSome_of_mem {l : List (Nat × Nat)} {e : Nat × Nat} (h : e ∈ l) : ∃ v, l.lookup e.1 = some v := by
+  induction l with
+  | nil => cases h
+  | cons a r ih =>
+    simp only [List.lookup]
+    by_cases hk : e.1 = a.1
+    · have : (e.1 == a.1) = true := by simp [hk]
+      rw [this]; exact ⟨a.2, rfl⟩
+    · have hb : (e.1 == a.1) = false := by simp [hk]
+      rw [hb]
+      rcases List.mem_cons.1 h with h | h
+      · subst h; exact absurd rfl hk
+      · exact ih h
+
+/-- an outdated name is gone after the deletions (it was absent, or it is among the entries the list was made from) -/
+theorem getF_delOutdated_none (roots : List Nat) (handed : List (Nat × Nat)) (o g : Nat)
+    (hc : (isPublic g && !roots.contains g && (handed.lookup g).isNone) = true) :
+    ∀ (fs : List (Nat × Nat)) (s : S), (getF s.h o g = none ∨ ∃ e ∈ fs, e.1 = g) →
+      getF (delOutdated roots handed o fs s).h o g = none := by
+  intro fs
+  induction fs with
+  | nil =>
+    intro s h
+    rcases h with h | ⟨e, he, _⟩
+    · exact h
+    · cases he
+  | cons e r ih =>
+    intro s h
+    simp only [delOutdated]
+    apply ih
+    by_cases hk : e.1 = g
+    · left; rw [hk, hc]; simp only [if_true]; rw [getF_del]; simp
+    · rcases h with h | ⟨x, hx, hxg⟩
+      · left
+        split
+        · rw [getF_del]; split
+          · rfl
+          · exact h
+        · exact h
+      · right
+        rcases List.mem_cons.1 hx with hx | hx
+        · subst hx; exact absurd hxg hk
+        · exact ⟨x, hx, hxg⟩
+
+/-- the hand-over writes only names of the incoming profile -/
+theorem getF_handOver_other (roots : List Nat) (handed : List (Nat × Nat)) (o x g : Nat) :
+    ∀ (l : List (Nat × Nat)) (s : S), (∀ e ∈ l, e.1 ≠ g) → getF (handOver roots handed o l s).h x g = getF s.h x g := by
+  intro l
+  induction l with
+  | nil => intro s _; rfl
+  | cons e r ih =>
+    intro s h
+    simp only [handOver]
+    rw [ih _ (fun y hy => h y (List.mem_cons_of_mem _ hy))]
+    split
+    · rfl
+    · rw [getF_write]
+      have : ¬ (x = o ∧ g = e.1) := fun hh => h e List.mem_cons_self hh.2.symm
+      simp [this]
+
+/-- a name of the incoming profile that is not a root hook ends up with the incoming profile's value -/
+theorem getF_handOver_set (roots : List Nat) (handed : List (Nat × Nat)) (o g v : Nat)
+    (hnr : roots.contains g = false) (hv : handed.lookup g = some v) :
+    ∀ (l : List (Nat × Nat)) (s : S), (getF s.h o g = some v ∨ ∃ e ∈ l, e.1 = g) →
+      getF (handOver roots handed o l s).h o g = some v := by
+  intro l
+  induction l with
+  | nil =>
+    intro s h
+    rcases h with h | ⟨e, he, _⟩
+    · exact h
+    · cases he
+  | cons e r ih =>
+    intro s h
+    simp only [handOver]
+    apply ih
+    by_cases hk : e.1 = g
+    · left; rw [hk, hnr, hv]; simp [getF_write]
+    · rcases h with h | ⟨x, hx, hxg⟩
+      · left
+        split
+        · exact h
+        · rw [getF_write]
+          have : ¬ (o = o ∧ g = e.1) := fun hh => hk hh.2.symm
+          rw [if_neg this]; exact h
+      · right
+        rcases List.mem_cons.1 hx with hx | hx
+        · subst hx; exact absurd hxg hk
+        · exact ⟨x, hx, hxg⟩
+
+theorem getF_pubFields {h : H} {p g : Nat} (hpub : isPublic g = true) : (pubFields h p).lookup g = getF h p g :=
+  lookup_filter_pred _ isPublic g hpub
+
+/-- `else:` branch: afterwards the re-used out-profile `o` has, under every public name that is not a root hook, what
+the incoming profile `p1` has under it (the same reference, or nothing) -/
+theorem reuseOut_getF (tag : Nat) (s : S) (o p1 g : Nat) (hpub : isPublic g = true)
+    (hnr : (outRoots tag).contains g = false) : getF (reuseOut tag s o p1).h o g = getF s.h p1 g := by
+  unfold reuseOut
+  simp only
+  rw [← getF_pubFields (h := s.h) (p := p1) hpub]
+  cases hl : (pubFields s.h p1).lookup g with
+  | none =>
+    rw [getF_handOver_other]
+    · apply getF_delOutdated_none
+      · rw [hpub, hnr, hl]; rfl
+      · cases ho : getF s.h o g with
+        | none => left; rfl
+        | some v => right; exact ⟨(g, v), mem_of_lookup ho, rfl⟩
+    · intro e he hk
+      obtain ⟨v, hv⟩ := lookup_isSome_of_mem he
+      rw [hk, hl] at hv; cases hv
+  | some v =>
+    apply getF_handOver_set _ _ _ _ _ hnr hl
+    right; exact ⟨(g, v), mem_of_lookup hl, rfl⟩
+
+/-- `Unit.init_solve` in the form `handOver`, out-profile created OR re-used: under every public name that is not a
+root hook the unit's out-profile has what the incoming profile has -/
+theorem ensureOut_handOver_getF (tag : Nat) (s : S) (u p1 g : Nat) (hpub : isPublic g = true)
+    (hnr : (outRoots tag).contains g = false) :
+    getF (ensureOut .handOver tag s u p1).1.h (ensureOut .handOver tag s u p1).2 g = getF s.h p1 g := by
+  unfold ensureOut
+  split
+  · exact reuseOut_getF tag s _ p1 g hpub hnr
+  · simp only [alloc_id]
+    rw [getF_write]
+    have hg : g ≠ fOUT := by
+      intro e; subst e; revert hpub; decide
+    simp only [hg, and_false, if_false]
+    rw [getF_alloc]
+    simp only [if_true]
+    exact getF_pubFields hpub
+
+/-- … whereas the form `keep` leaves a re-used out-profile (and everything else) as the previous solve left it -/
+theorem ensureOut_keep_reused (tag : Nat) (s : S) (u p1 o : Nat) (ho : getF s.h u fOUT = some o) :
+    ensureOut .keep tag s u p1 = (s, o) := by
+  unfold ensureOut
+  rw [ho]
 
 /-! ### solve -/
 
@@ -473,11 +677,11 @@ theorem solveBody_spec (P : Producers) (hP : P.Safe) {f : Rec} (hf : RecSpec f) 
   have T0 : Trk s.h u s.tr s.popIt.2 := by
     have := Trk.refl (s := s.popIt.2) (by rw [popIt_h]; exact w) u
     rw [popIt_h, popIt_tr] at this; exact this
-  obtain ⟨a, hi, ho⟩ := initSolve_spec w hu hf T0 (by rw [popIt_h]; exact hp)
+  obtain ⟨a, hi, ho⟩ := initSolve_spec w hu P.reuse hf T0 (by rw [popIt_h]; exact hp)
   -- the locals of the loop
-  have L : Locals s.h u (initSolve f s.popIt.2 u p).2.1 (initSolve f s.popIt.2 u p).2.2
-      (if (s.popIt.2.h.obj u).tag = 1 then getF (initSolve f s.popIt.2 u p).1.h u fROLL else none)
-      (subItems (initSolve f s.popIt.2 u p).1.h u) (initSolve f s.popIt.2 u p).1 := by
+  have L : Locals s.h u (initSolve P.reuse f s.popIt.2 u p).2.1 (initSolve P.reuse f s.popIt.2 u p).2.2
+      (if (s.popIt.2.h.obj u).tag = 1 then getF (initSolve P.reuse f s.popIt.2 u p).1.h u fROLL else none)
+      (subItems (initSolve P.reuse f s.popIt.2 u p).1.h u) (initSolve P.reuse f s.popIt.2 u p).1 := by
     refine ⟨hi, ho, ?_, ?_⟩
     · intro r hr
       split at hr
@@ -493,14 +697,14 @@ theorem solveBody_spec (P : Producers) (hP : P.Safe) {f : Rec} (hf : RecSpec f) 
     (fun s' T' L' => iterBody_spec w hu P hP hf (s.popIt.2.h.obj u).tag (s.popIt.2.h.obj u).ovr T' L')
     s.popIt.1 _ a.trk L
   have e : solveBody P f s u p =
-      (iterN s.popIt.1 (iterBody P f u (initSolve f s.popIt.2 u p).2.1 (initSolve f s.popIt.2 u p).2.2
-          (if (s.popIt.2.h.obj u).tag = 1 then getF (initSolve f s.popIt.2 u p).1.h u fROLL else none)
-          (s.popIt.2.h.obj u).tag (s.popIt.2.h.obj u).ovr (subItems (initSolve f s.popIt.2 u p).1.h u))
-        (initSolve f s.popIt.2 u p).1).alloc
-        (profCopy (iterN s.popIt.1 (iterBody P f u (initSolve f s.popIt.2 u p).2.1 (initSolve f s.popIt.2 u p).2.2
-          (if (s.popIt.2.h.obj u).tag = 1 then getF (initSolve f s.popIt.2 u p).1.h u fROLL else none)
-          (s.popIt.2.h.obj u).tag (s.popIt.2.h.obj u).ovr (subItems (initSolve f s.popIt.2 u p).1.h u))
-        (initSolve f s.popIt.2 u p).1).h .profile none (initSolve f s.popIt.2 u p).2.2) := rfl
+      (iterN s.popIt.1 (iterBody P f u (initSolve P.reuse f s.popIt.2 u p).2.1 (initSolve P.reuse f s.popIt.2 u p).2.2
+          (if (s.popIt.2.h.obj u).tag = 1 then getF (initSolve P.reuse f s.popIt.2 u p).1.h u fROLL else none)
+          (s.popIt.2.h.obj u).tag (s.popIt.2.h.obj u).ovr (subItems (initSolve P.reuse f s.popIt.2 u p).1.h u))
+        (initSolve P.reuse f s.popIt.2 u p).1).alloc
+        (profCopy (iterN s.popIt.1 (iterBody P f u (initSolve P.reuse f s.popIt.2 u p).2.1 (initSolve P.reuse f s.popIt.2 u p).2.2
+          (if (s.popIt.2.h.obj u).tag = 1 then getF (initSolve P.reuse f s.popIt.2 u p).1.h u fROLL else none)
+          (s.popIt.2.h.obj u).tag (s.popIt.2.h.obj u).ovr (subItems (initSolve P.reuse f s.popIt.2 u p).1.h u))
+        (initSolve P.reuse f s.popIt.2 u p).1).h .profile none (initSolve P.reuse f s.popIt.2 u p).2.2) := rfl
   rw [e]
   exact spec_of_final b.trk
 
